@@ -119,12 +119,13 @@ def load_db(text, db=None):
             cwd = os.getcwd()
             rel_dir = os.path.join(_TMP, "cwd-%d" % os.getpid())
             os.makedirs(os.path.join(rel_dir, "data"), exist_ok=True)
-            rel = os.path.join(rel_dir, "data", "p0f.fp")
+            name = "p0f.fp" if _LOADS[0] % 16 == 3 else os.path.join("data", "p0f.fp")      # (also the bare file name of the bundled database, in the current directory)
+            rel = os.path.join(rel_dir, name)
             os.replace(path, rel)
             path = rel
             try:
                 os.chdir(rel_dir)
-                db.load("data/p0f.fp" if _LOADS[0] % 8 == 3 else pathlib.Path("data/p0f.fp"))
+                db.load(name if _LOADS[0] % 8 == 3 else pathlib.Path(name))
             finally:
                 os.chdir(cwd)
             return db
